@@ -178,6 +178,13 @@ func (wm *Watermark) UpdateEventTime(eventTime time.Time) {
 	wm.sendWatermarkLocked()
 }
 
+// isFarFuture reports whether an event time lies beyond the future-timestamp guard
+// of UpdateEventTime (now + maxOutOfOrderness + maxFutureSlack): such a timestamp is
+// treated as corrupt and never moves the watermark.
+func (wm *Watermark) isFarFuture(eventTime time.Time) bool {
+	return eventTime.After(time.Now().Add(wm.maxOutOfOrderness + maxFutureSlack))
+}
+
 // GetCurrentWatermark returns the current watermark time
 func (wm *Watermark) GetCurrentWatermark() time.Time {
 	wm.mu.RLock()
